@@ -1,6 +1,8 @@
 //! C14 — reported object counts and max combo account for exactly the objects of the map.
 
 use rosu_pp::{any::DifficultyAttributes, model::hit_object::HitObjectKind, Beatmap, Difficulty};
+use std::ops::Not as _;
+
 use vh::{
     api,
     cmp::same,
@@ -67,7 +69,7 @@ fn is_convert(a: &DifficultyAttributes) -> Option<bool> {
 
 fn main() {
     let ctx = Ctx::from_env("C14");
-    ctx.rule("case = (mode configuration, grammar map); per case: mods menu (NM, HR, DT, Mirror variants, key mods, HoldOff, Invert, ...) x n in 0..=total+2; oracle = an independent counter over the converted Beatmap: osu circles/sliders/spinners of the prefix, taiko max_combo = hits, mania n_objects / n_hold_notes (HoldOff -> 0 holds), catch fruits = circles + slider heads + repeats + tails (full map); counted amount = min(n, total); every count non-decreasing in n; n > total gives the same attributes as not limiting; is_convert <=> converted; universe 'text-lines-vs-counts': every object line of the written text, with integer and with fractional start times and positions, is one object of its kind in the decoded map and in the native attributes; non-trivial = map has objects");
+    ctx.rule("case = (mode configuration, grammar map; osu! maps and their converts also under tick rates 2 and 8 with other slider velocities); per case: mods menu (NM, HR, DT, Mirror variants, key mods, HoldOff, Invert, ...) x n in 0..=total+2; oracle = an independent counter over the converted Beatmap: osu circles/sliders/spinners of the prefix, taiko max_combo = hits, mania n_objects / n_hold_notes (HoldOff -> 0 holds), catch fruits = circles + slider heads + repeats + tails (full map); counted amount = min(n, total); every count non-decreasing in n; n > total gives the same attributes as not limiting; is_convert <=> converted; universe 'text-lines-vs-counts': every object line of the written text, with integer and with fractional start times and positions, is one object of its kind in the decoded map and in the native attributes; non-trivial = map has objects");
 
     let n_max = ctx.pick(4, 5);
     let mut opts = UniOpts::new(n_max);
@@ -79,8 +81,21 @@ fn main() {
         opts.poss = vec![gen::PosK::Far];
     }
     let rich = !ctx.quick();
-    for u in opts.build() {
-        let menu = mods_menu(u.cfg.dst, rich);
+    // the default preset for every mode configuration; osu! maps and their converts also under 2 ticks per beat and under 8 ticks
+    // per beat with fast sliders (how many objects a slider becomes in taiko / catch depends on both), N <= 3, longer sliders
+    let mut unis = opts.build();
+    for (preset, tag) in [(gen::DiffPreset::D3, "/2-ticks"), (gen::DiffPreset::D2, "/8-ticks-fast-sliders")] {
+        let mut o2 = UniOpts::new(3);
+        o2.cfgs = (0..4).map(|d| gen::ModeCfg { src: 0, dst: d }).collect();
+        o2.kinds_std = vec![gen::Kind::Circle, gen::Kind::Slider1, gen::Kind::Slider2, gen::Kind::SliderLong, gen::Kind::Slider5];
+        o2.gaps = vec![100, 400];
+        o2.poss = vec![gen::PosK::Far];
+        o2.diff = preset;
+        o2.tag = tag.into();
+        unis.extend(o2.build());
+    }
+    for u in unis {
+        let menu = mods_menu(u.cfg.dst, rich && u.name.contains("ticks").not());
         ctx.universe(&u.name, u.total, |idx, l| {
             let (spec, map) = u.decode(idx);
             u.sample(l, idx, &spec, "mods menu x n in 0..=total+2");
